@@ -6,7 +6,7 @@
    A molecule enters the writer as what the molecule-level code returns for it:
      f_smi  = m.__format__(spec, _return_order=True)[0]   (SMILES without CX part)
      f_ncomp = m.connected_components_count
-     f_rad  = [m.atom(n).is_radical for n in order]
+     f_rad  = [m.atom(n).is_radical for n in order]     (also the second component of the sort key)
    The molecule-level SMILES writer / parser themselves are properties C01-C04 and are not modelled here.
    Definitions only; proofs in Proofs.RxnSmilesProofs. *)
 From Coq Require Import ZArith List String Ascii Bool DecimalString.
@@ -18,13 +18,25 @@ Open Scope Z_scope.
 
 Record fmol := mkF { f_smi : string; f_ncomp : Z; f_rad : list bool }.
 
-(* ---------- list.sort(key=itemgetter(1)): stable, by code points ---------- *)
-Fixpoint insert_by {A : Type} (key : A -> string) (x : A) (l : list A) : list A :=
+(* ---------- list.sort(key=lambda x: (x[1], [radical flags in SMILES order])): stable ---------- *)
+(* the sort is modelled as a stable insertion sort with "x <= y", i.e. not (y < x), as the test *)
+Fixpoint insert_by {A : Type} (leb : A -> A -> bool) (x : A) (l : list A) : list A :=
   match l with
   | [] => [x]
-  | y :: r => if String.leb (key x) (key y) then x :: y :: r else y :: insert_by key x r
+  | y :: r => if leb x y then x :: y :: r else y :: insert_by leb x r
   end.
-Definition sort_by {A : Type} (key : A -> string) (l : list A) : list A := fold_right (insert_by key) [] l.
+Definition sort_by {A : Type} (leb : A -> A -> bool) (l : list A) : list A := fold_right (insert_by leb) [] l.
+
+(* Python comparison of two lists of bool: first difference decides (False < True), a proper prefix is smaller *)
+Fixpoint blist_leb (a b : list bool) : bool :=
+  match a, b with
+  | [], _ => true
+  | _ :: _, [] => false
+  | x :: a', y :: b' => if Bool.eqb x y then blist_leb a' b' else negb x
+  end.
+(* Python comparison of the key tuples (smiles, radicals): strings by code points, then the lists *)
+Definition key_leb (a b : fmol) : bool :=
+  if String.eqb (f_smi a) (f_smi b) then blist_leb (f_rad a) (f_rad b) else String.leb (f_smi a) (f_smi b).
 
 (* str(n) for n >= 0 *)
 Definition dec (n : Z) : string := NilZero.string_of_uint (N.to_uint (Z.to_N n)).
@@ -51,7 +63,7 @@ Fixpoint true_positions (l : list bool) (i : Z) : list Z :=
 Record written := mkW { w_sig : string; w_radicals : list Z; w_contract : list (list Z) }.
 
 Definition rxn_write (keep_order : bool) (rs gs ps : list fmol) : written :=
-  let prep := fun l => if keep_order then l else sort_by f_smi l in
+  let prep := fun l => if keep_order then l else sort_by key_leb l in
   let '(s1, c1, r1, n1) := role_loop (prep rs) 0 in
   let '(s2, c2, r2, n2) := role_loop (prep gs) n1 in
   let '(s3, c3, r3, _) := role_loop (prep ps) n2 in
@@ -301,8 +313,8 @@ Definition contract_roles (rec_r rec_p rec_g : list string) (contract : list (li
       let new2 := fold_left (fun nw x => zupd nw x (Some (py_get rec_p (x - mol_count)))) (cs_p st) new1 in
       let new3 := fold_left (fun nw x => zupd nw x (Some (py_get rec_g (x - lr)))) (cs_g st) new2 in
       Ok (somes (py_slice new3 None (Some lr)),
-          somes (py_slice new3 (Some lr) (Some (- lp))),
-          somes (py_slice new3 (Some (- lp)) None))
+          somes (py_slice new3 (Some lr) (Some (mol_count - lp))),
+          somes (py_slice new3 (Some (mol_count - lp)) None))
   end.
 
 (* the reaction branch of smiles() up to the molecule parser: which strings are handed to parser(smiles_tokenize(x)).
@@ -326,15 +338,25 @@ Definition read_core (ignore : bool) (smi : string) (contract : option (list (li
   | _ => Err ValueError                                       (* reactants, reagents, products = smi.split('>') *)
   end.
 
-(* smiles(data) up to the molecule parser: roles and the radical atom indices *)
-Definition read_rxn (ignore : bool) (data : string) : pyres (option roles * list Z) :=
+(* smiles(data) up to the molecule parser: roles and the radical atom indices.
+   natoms x = number of atoms the molecule parser returns for the piece x (the parser itself is C01-C03, not modelled):
+   a CX radical index must be below the total number of atoms (`x not in atom_map` / `x >= len(record['atoms'])`
+   raise IncorrectSmiles), which is tested before ReactionContainer.__init__ refuses a reaction without molecules *)
+Definition zsum (l : list Z) : Z := fold_left Z.add l 0.
+Definition read_rxn (natoms : string -> Z) (ignore : bool) (data : string) : pyres (option roles * list Z) :=
   match split_ws data with
-  | [] => Err ValueError
+  | [] => Err ValueError                              (* data.split() of a whitespace-only string: smi, *data = [] *)
   | smi :: rest =>
       let '(radicals, contract) := parse_cx rest in
       match read_core ignore smi contract with
       | Err e => Err e
-      | Ok (Some ([], [], [])) => Err ValueError      (* ReactionContainer.__init__: 'At least one graph object required' *)
-      | Ok r => Ok (r, radicals)
+      | Ok (Some (a, g, p)) =>
+          let total := zsum (map natoms (a ++ g ++ p)) in
+          if existsb (fun x => total <=? x) radicals then Err IncorrectSmiles
+          else match a, g, p with
+               | [], [], [] => Err ValueError          (* ReactionContainer.__init__: 'At least one graph object required' *)
+               | _, _, _ => Ok (Some (a, g, p), radicals)
+               end
+      | Ok None => if existsb (fun x => natoms smi <=? x) radicals then Err IncorrectSmiles else Ok (None, radicals)
       end
   end.
